@@ -1,8 +1,8 @@
 """C17 — distinct resamplers can be used concurrently; results equal serial use; the process-wide FFT cache and coefficient
 tables are never read while being rebuilt nor initialised twice.
 
-  proof      lean/SoxrModel/Properties/C17.lean (20 theorems): counter-abstraction model of ONE FFT cache (fft4g_cache.h +
-             ccrw2.h + the unguarded lazy initialiser, 53 program points, 63 transitions, five semaphores, readcount, writecount,
+  proof      lean/SoxrModel/Properties/C17.lean (23 theorems): counter-abstraction model of ONE FFT cache (fft4g_cache.h +
+             ccrw2.h + the unguarded lazy initialiser, 55 program points, 65 transitions, five semaphores, readcount, writecount,
              FFT_LEN, built length) for ANY number of threads and EVERY interleaving: after initialisation writer/reader
              exclusion, no read during a rebuild, readers find the tables built, every rebuild is a strict growth (the
              re-test after the reader->writer upgrade), tables stable under a reader; the same from process start when
@@ -14,7 +14,11 @@ tables are never read while being rebuilt nor initialised twice.
              lock words sampled right after it, is replayed by the compiled Lean driver soxr_conc on the SAME `fire` the
              theorems quantify over: the transition must be enabled, the abstract variables must equal the real ones, the
              counts must equal the threads' program points.  REJECT = correspondence broken.
-  falsifier  monitors inside the harness on the real code (second initialisation of a held / initialised lock, FFT_LEN reset,
+             Table uses are events too: fft4g's rdft/cdft report the first dereference of the shared tables (hook
+             soxr_verif_table_use, also a scheduling point); the model takes a `use` only from a thread that holds the reader or
+             the writer role (TABLE-USE-OUTSIDE-LOCK otherwise) and proves that no other thread rebuilds at that moment.
+  falsifier  monitors inside the harness on the real code (table use outside UPDATE_FFT_CACHE..DONE_WITH_FFT_CACHE or while
+             another thread rebuilds, second initialisation of a held / initialised lock, FFT_LEN reset,
              table or FFT_LEN written without the writer role, rebuild without growth, two rebuilders, reader inside a
              transform during a rebuild, release of a lock not held, use of an uninitialised lock, deadlock) and every job's
              output compared bit for bit with the same job run alone in a fresh process.  Supplement without the scheduler
@@ -263,7 +267,7 @@ def run(ctx):
     ctx.cov["max_concurrent_readers_in_transform"] = stats["max_readers"]
     ctx.cov["vr_runs_with_raced_table_init"] = stats["vr_raced"]
     ctx.cov["jobsets"] = {s: L.JOBSETS[s][3] for s in sets}
-    ctx.cov["rule"] = ("schedule = explicit decisions at every scheduling point (lock acquisition, yield point, optionally lock release, "
+    ctx.cov["rule"] = ("schedule = explicit decisions at every scheduling point (lock acquisition, yield point, table use, optionally lock release, "
                        "thread exit) + tail policy; families: tail policies (run-to-block, round-robin, random with 5 switch probabilities), "
                        "random decision prefixes, EVERY single pre-emption of the non-pre-emptive schedule (every decision point x every other "
                        "thread), pairs of pre-emptions (%s), thread 0 parked inside the initialiser for EVERY progress k of thread 1%s; "
@@ -287,6 +291,20 @@ def run(ctx):
 
     # ---------------- verdicts
     active = [f for f in common.known_active(PID) if f.get("id") == "F9"]
+    # schedules on which the real code misbehaved or left the model: reported first, they carry the failing input
+    seen = {}
+    for k, t, r in vios:
+        key = (k, r["spec"]["set"], r["spec"].get("warm", 0))
+        seen.setdefault(key, []).append((t, r))
+    ctx.cov["violating_runs"] = len(set(r["spec"]["id"] for _, _, r in vios))
+    order = sorted(seen, key=lambda k: (k[0] == "REJECT", k))        # real-code monitor hits first: they carry the failing behaviour
+    for key in order[:10]:
+        t, r = sorted(seen[key], key=lambda x: (len(x[1]["decisions"]), x[1]["spec"]["id"]))[0]
+        ctx.violation("%s in %d schedule(s) of job set %s (%s start): %s" % (key[0], len(seen[key]), key[1], "warm" if key[2] else "cold", t),
+                      {"line": replay_line(r), "line_as_generated": L.spec_line(r["spec"]), "kind": key[0], "detail": t,
+                       "monitors": [(e, k2, x) for e, k2, x in r["viol"]][:12], "status": r["status"], "wrong": r["wrong"],
+                       "model": (r["model"] or {}).get("raw") or (r["model"] or {}).get("why"),
+                       "how": "build/harness/sched-rel-* line '<line>' | lean/.lake/build/bin/soxr_conc   (or bin/check C17 --replay <this file>)"})
     fr = L.free_running(ctx, bool(active))
     ts = L.tsan_scheduled(ctx, bool(active), sets, base)
     if ts.get("f9_tsan") and not fr.get("f9_tsan"):
@@ -315,19 +333,6 @@ def run(ctx):
     else:
         ctx.notes.append("no explored schedule reached the state of late_init_breaks_exclusion on the real code")
 
-    seen = {}
-    for k, t, r in vios:
-        key = (k, r["spec"]["set"], r["spec"].get("warm", 0))
-        seen.setdefault(key, []).append((t, r))
-    ctx.cov["violating_runs"] = len(set(r["spec"]["id"] for _, _, r in vios))
-    order = sorted(seen, key=lambda k: (k[0] == "REJECT", k))        # real-code monitor hits first: they carry the failing behaviour
-    for key in order[:10]:
-        t, r = sorted(seen[key], key=lambda x: (len(x[1]["decisions"]), x[1]["spec"]["id"]))[0]
-        ctx.violation("%s in %d schedule(s) of job set %s (%s start): %s" % (key[0], len(seen[key]), key[1], "warm" if key[2] else "cold", t),
-                      {"line": replay_line(r), "line_as_generated": L.spec_line(r["spec"]), "kind": key[0], "detail": t,
-                       "monitors": [(e, k2, x) for e, k2, x in r["viol"]][:12], "status": r["status"], "wrong": r["wrong"],
-                       "model": (r["model"] or {}).get("raw") or (r["model"] or {}).get("why"),
-                       "how": "build/harness/sched-rel-* line '<line>' | lean/.lake/build/bin/soxr_conc   (or bin/check C17 --replay <this file>)"})
     if broken:
         ctx.cov["broken_obligations"] = broken
         if not vios:
